@@ -445,6 +445,16 @@ def _seq(cx: Ctx, env, elem, depth):
 def comprehension(cx: Ctx, e2, v, src, elt, depth):
     """render a single-for comprehension (list or generator expression) with 0-3 if clauses"""
     ifs = "".join(f" if {gen(cx, e2, B, max(depth - 1, 0))}" for _ in range(cx.int_(0, 3) if cx.chance(6) else 0))
+    vt = dict(e2).get(v)
+    sp = seq_paths(cx, [(v, vt)]) if vt is not None else []
+    if sp and cx.chance(3):
+        # a guard pair: the FIRST clause loops over a member sequence (nested comprehension / lambda), the SECOND one is plain
+        # and only defined for elements that passed the first (python evaluates the clauses left to right)
+        se, _ = cx.pick(sp)
+        seq = _fill(cx, se)
+        w = cx.fresh(e2)
+        guard = cx.pick([f"len([{w} for {w} in {seq}]) > 0", f"Count(Where({seq}, lambda {w}: True)) > 0"])
+        ifs = f" if {guard} if First({seq}) == First({seq})" + ifs
     if cx.cfg.genexp and cx.chance(3):
         return f"({elt} for {v} in {src}{ifs})"
     return f"[{elt} for {v} in {src}{ifs}]"
